@@ -1,6 +1,6 @@
 (** * C07 -- Every emitted WebAssembly binary is well-formed and valid. *)
 From Coq Require Import String ZArith List Bool.
-From NSL Require Import Spec.Wasm Proofs.WasmProofs.
+From NSL Require Import Model.IR Spec.Wasm Model.WasmGen Proofs.WasmProofs Proofs.WasmGenProofs.
 From NSLDyn Require Gen_Shapes.
 Import ListNotations.
 
@@ -33,6 +33,14 @@ Theorem C07_straight_line_body_valid : forall ft ls groups pv t,
   check_body ft ls (concat groups ++ [pv; Return]) = true.
 Proof. exact straight_line_body_valid. Qed.
 
+(** The generator as a function of the IR (Model.WasmGen, compared for equality with the decoded binary of the real
+    compiler on every run): whatever it emits for an IR function whose instructions are typed (operands of one type,
+    result type following the operator; checked on the real IR) is a valid body for the emitted signature -- for
+    functions of any length, any number of parameters and locals of mixed type, any constants, any number of returns. *)
+Theorem C07_generated_function_valid : forall F ft ls body,
+  gen_function F = Some (ft, ls, body) -> ir_typed_b F = true -> check_body ft ls body = true.
+Proof. exact gen_function_valid. Qed.
+
 (** Full statement (PARTIAL): every module the compiler emits decodes and validates.  The theorems above are the typing
     part for bodies of any length; that the emitted sections decode with exact lengths rests on C19's round-trip
     theorems (integers, names, section framing) and on the per-binary check below: every emitted binary is decoded and
@@ -42,6 +50,7 @@ Definition C07_full_statement : Prop := forall (emitted : bytes), valid_binary e
 Theorem C07_writer_shape : Gen_Shapes.shape_wasm_writer_checked = true /\ Gen_Shapes.shape_wasm_generator_checked = true.
 Proof. split; reflexivity. Qed.
 
+Eval compute in "ASSUMPTIONS C07_generated_function_valid"%string. Print Assumptions C07_generated_function_valid.
 Eval compute in "ASSUMPTIONS C07_straight_line_body_valid"%string. Print Assumptions C07_straight_line_body_valid.
 Eval compute in "ASSUMPTIONS C07_binary_group_valid"%string. Print Assumptions C07_binary_group_valid.
 Eval compute in "END"%string.
